@@ -204,7 +204,9 @@ def sum_send(model, it, st, fr, node, target, args, kwargs):
     buf = args[1] if len(args) > 1 else kwargs.get("buf")
     it.event(st, fr, "ce", node, Const(False))
     st.extra["ce"] = Const(False)
-    it.event(st, fr, "radio-send", node, (target.func.name, buf, dict(kwargs), args[2:], txn))
+    regs = st.extra.get("regs", {})
+    it.event(st, fr, "radio-send", node, (target.func.name, buf, dict(kwargs), args[2:], txn,
+                                            {"EN_AA": regs.get(1), "TX_ADDR": regs.get(0x10), "CONFIG": regs.get(0), "RX_ADDR_P0": regs.get(0x0A)}))
     it.event(st, fr, "ce", node, Const(True))
     st.extra["ce"] = Const(True)
     k = st.extra.get("nsend", 0) + 1
